@@ -54,6 +54,7 @@ func ExtractTypeNameMap(v interface{}) (map[string]reflect.Type, map[string]stri
 	value := reflect.ValueOf(v)
 	typMap := make(map[string]reflect.Type)
 	nameMap := make(map[string]string)
+	seen := make(map[uintptr]bool) // containers already walked (cyclic values)
 	ExtractValue(value, func(v reflect.Value) bool {
 		if !v.IsValid() {
 			return false
@@ -61,7 +62,16 @@ func ExtractTypeNameMap(v interface{}) (map[string]reflect.Type, map[string]stri
 		typ := v.Type()
 		name := TypeName(typ)
 		if _, ok := typMap[name]; ok {
-			return false
+			// a type is entered once; only a container whose elements are interfaces is
+			// walked again, because what those hold differs from value to value
+			if (typ.Kind() != reflect.Slice && typ.Kind() != reflect.Map) || !holdsInterface(typ) || v.IsNil() || seen[v.Pointer()] {
+				return false
+			}
+			seen[v.Pointer()] = true
+			return true
+		}
+		if (typ.Kind() == reflect.Slice || typ.Kind() == reflect.Map) && !v.IsNil() {
+			seen[v.Pointer()] = true
 		}
 
 		typMap[name] = typ
@@ -97,6 +107,20 @@ func ExtractTypeNameMap(v interface{}) (map[string]reflect.Type, map[string]stri
 	}
 
 	return typMap, nameMap
+}
+
+// holdsInterface reports whether values of container type t can hold
+// interface-typed elements (directly or in nested containers)
+func holdsInterface(t reflect.Type) bool {
+	switch t.Kind() {
+	case reflect.Interface:
+		return true
+	case reflect.Slice, reflect.Array, reflect.Ptr:
+		return holdsInterface(t.Elem())
+	case reflect.Map:
+		return holdsInterface(t.Key()) || holdsInterface(t.Elem())
+	}
+	return false
 }
 
 // remove pointer '*' and right bracket ']'
